@@ -1291,8 +1291,10 @@ pub fn check_c17_system(obs: &Observation) -> V {
         }
     };
     if obs.stop_fired_at.is_some() || obs.killed || obs.crashed_at.is_some() || matches!(obs.result, Some(Err(_))) {
+        vcommon::sched::oracle_note(if obs.stop_fired_at.is_some() { "timeout laws skipped: external stop" } else if matches!(obs.result, Some(Err(_))) { "timeout laws skipped: the agent failed" } else { "timeout laws skipped: injected crash" });
         return out;
     }
+    vcommon::sched::oracle_note(if obs.completed_step.is_some() { "timeout laws judged: the agent stopped" } else { "timeout laws judged: the agent kept running" });
     let timeout_ms = crate::world::INACTIVE_TIMEOUT.as_millis() as u64;
     let t = |step: u64| -> u64 { obs.times.get(step as usize).or(obs.times.last()).copied().unwrap_or(0) };
     let stop_step: Option<u64> = obs.truth.iter().find(|(_, e)| matches!(e, Truth::Stop)).map(|(s, _)| *s);
